@@ -1,0 +1,34 @@
+package value
+
+// DeepClone returns a copy of `v` that shares no list, object or option storage with it
+// (the counterpart of the VM's `Value.Clone`).
+func DeepClone(v Value) *Value {
+	switch self := v.(type) {
+	case ValueList:
+		values := make([]*Value, len(*self.Values))
+		for idx, elem := range *self.Values {
+			values[idx] = DeepClone(*elem)
+		}
+		return NewValueList(values)
+	case ValueObject:
+		fields := make(map[string]*Value, len(self.FieldsInternal))
+		for key, field := range self.FieldsInternal {
+			fields[key] = DeepClone(*field)
+		}
+		return NewValueObject(fields)
+	case ValueAnyObject:
+		fields := make(map[string]*Value, len(self.FieldsInternal))
+		for key, field := range self.FieldsInternal {
+			fields[key] = DeepClone(*field)
+		}
+		return NewValueAnyObject(fields)
+	case ValueOption:
+		if self.Inner == nil {
+			return NewNoneOption()
+		}
+		return NewValueOption(DeepClone(*self.Inner))
+	default:
+		// scalars, strings, ranges and functions have no shared mutable storage
+		return &v
+	}
+}
